@@ -66,6 +66,19 @@ class Tensor(object):
     return "Tensor(%s)" % (show_term(self.term),)
 
 
+class Var(Tensor):
+  """tf.Variable: a mutable cell; `.assign(v)` replaces its content, the
+  object identity (and hence every reference to it) is preserved."""
+  __slots__ = ()
+
+  def content(self):
+    return self.term[3][0]
+
+
+def make_var(term):
+  return Var(("app", "variable", (), (term,)), ())
+
+
 class Obj(object):
   def __init__(self, cls):
     self.cls = cls
@@ -877,6 +890,10 @@ class PE(object):
       else:
         if a is None or b is None:
           raise PyRaise("TypeError", "ordering comparison with None")
+        if isinstance(a, (str, list, dict)) or isinstance(b, (str, list,
+                                                             dict)):
+          raise PyRaise("TypeError", "ordering comparison of %s and %s" %
+                        (type(a).__name__, type(b).__name__))
         self.err("ordering comparison of %r and %r" % (a, b), node)
     if isinstance(op, ast.Lt):
       return a < b
@@ -932,6 +949,9 @@ class PE(object):
       if vals and all(t == vals[0] for t in vals):
         return vals[0]
       return ("app", "vector", (), tuple(vals))
+    if isinstance(v, str) or v is None or isinstance(v, dict):
+      raise PyRaise("TypeError", "%s used in tensor arithmetic" %
+                    type(v).__name__)
     self.err("cannot use %r as a tensor operand" % (v,))
 
   def binop(self, op, a, b):
@@ -1222,7 +1242,14 @@ class PE(object):
       if n in ("numpy", "eval", "read_value", "value", "tolist", "copy",
                "astype", "item"):
         return r
-      if n == "assign":
+      if n in ("assign", "assign_add", "assign_sub"):
+        if isinstance(r, Var) and args:
+          new = self.as_term(args[0])
+          if n == "assign_add":
+            new = ("add", r.content(), new)
+          elif n == "assign_sub":
+            new = ("add", r.content(), ("neg", new))
+          r.term = ("app", "variable", (), (new,))
         return None
       if n == "as_list":
         return list(r.shape or ())
@@ -1372,7 +1399,7 @@ def local_names(fn):
 
 
 BUILTINS = {
-    "globals", "isinstance", "len", "range", "list", "tuple", "dict", "float", "int",
+    "eval", "exec", "compile", "__import__", "globals", "isinstance", "len", "range", "list", "tuple", "dict", "float", "int",
     "str", "abs", "max", "min", "pow", "hasattr", "getattr", "zip",
     "enumerate", "callable", "bool", "print", "sum", "sorted", "type", "any",
     "all", "round", "set", "super", "object", "ValueError", "TypeError",
